@@ -15,3 +15,28 @@ Definition verdict_c04 (h : hierarchy) (c : icase) : nat :=
        | Some t => if corrb t (iimpl c) then 0 else 1
        | None => 1
        end.
+
+(* ---- C06 ---- *)
+Record c6case := C6Case {
+  c6 : icase;
+  c6decoded : ty;            (* type_from_json (type_to_json impl), by /repo *)
+  c6stub_counts : list nat   (* fields per generated stub class; base+NonTotal pairs summed *)
+}.
+
+Definition all_str_dicts (vs : list value) : bool :=
+  forallb (fun v => match v with
+                    | VDict kvs => negb (Nat.eqb (List.length kvs) 0) && forallb is_strkey kvs
+                    | _ => false end) vs.
+
+Definition verdict_c06 (c : c6case) : nat :=
+  let k := ik (c6 c) in
+  let impl := iimpl (c6 c) in
+  if negb (td_boundedb k impl) then 2
+  else if Nat.eqb k 0 && has_td impl then 2
+  else if negb (td_boundedb k (c6decoded c)) then 2
+  else if negb (forallb (fun n => Nat.leb 1 n && Nat.leb n k) (c6stub_counts c)) then 2
+  else if is_td impl && negb (all_str_dicts (ivs (c6 c))) then 2
+  else match model_of (c6 c) with
+       | Some t => if corrb t impl then 0 else 1
+       | None => 1
+       end.
